@@ -60,6 +60,7 @@ TakeEv == Op(/\ Ev.op = "take" /\ a.mode # "eof" /\ (Ev.n >= 1 \/ Ev.n = All)
 ToNextEv == Op(/\ Ev.op = "tonext" /\ a.mode # "eof"
                /\ LET t == ToNext(Lens, a) IN Ev.cnt = t.r /\ a' = t.a)
 SeekEv == Op(/\ Ev.op = "seek" /\ Ev.j \in 1..Len(Lens) /\ Ev.p = starts[Ev.j] /\ a' = Seek(a, Ev.j))
+SeekCurEv == Op(/\ Ev.op = "seekcur" /\ a.told # 0 /\ Ev.p = starts[a.told] /\ a' = Seek(a, a.told))
 TellEv == Op(/\ Ev.op = "tell" /\ a.told # 0 /\ Ev.r = starts[a.told] /\ a' = a)
 EofEv == Op(/\ Ev.op = "eofflag" /\ Ev.v = (a.mode = "eof") /\ a' = a)
 
@@ -87,7 +88,7 @@ Strip == /\ More /\ Ev.op = "strip" /\ cur.k = Len(Lens) + 1
          /\ UNCHANGED <<phase, cur, pos, starts, npr, prevM, a>>
 
 Done == ~More /\ UNCHANGED <<phase, cur, pos, starts, npr, prevM, a>>
-TNext == \/ (Pr \/ EndLayout \/ TakeEv \/ ToNextEv \/ SeekEv \/ TellEv \/ EofEv \/ WLr \/ WPr \/ WClose \/ Strip)
+TNext == \/ (Pr \/ EndLayout \/ TakeEv \/ ToNextEv \/ SeekEv \/ SeekCurEv \/ TellEv \/ EofEv \/ WLr \/ WPr \/ WClose \/ Strip)
             /\ l' = l + 1 /\ UNCHANGED tid
          \/ Done /\ UNCHANGED <<tid, l>>
 TSpec == TInit /\ [][TNext]_tvars
